@@ -78,9 +78,10 @@ def _respace(text):
     return ''.join(out)
 
 
-def generate(repo, rel, build):
+def generate(repo, rel, build, sample_dir=None):
+    """`rel` is a repository file, or -- with sample_dir -- a generator input kept under /verif/gen/samples"""
     check_glue(repo)
-    src = os.path.join(repo, rel)
+    src = os.path.join(sample_dir if sample_dir else repo, rel)
     if not os.path.exists(src):
         raise GenError('sample trait file missing: ' + rel)
     work = os.path.join(build, 'rtcgen')
